@@ -2854,12 +2854,24 @@ def rule_text_reaches_the_parser_as_read(ctx, rep: Report, rid="L7", min_sites=3
         if not mi.rel.startswith(("gtwrap/", "scripts/")) or mi.rel.startswith("gtwrap/xml_parser"):
             continue
         fns = [(name, f, None) for name, f in mi.functions.items()] + [(f"{q}.{m}", f, c) for q, c in mi.classes.items() for m, f in c.methods.items()]
+        # helpers that hand out what they read (`def _read(path): with open(path) as f: return f.read()`): a call of one is a read
+        readers = set()
         for name, fn, ci in fns:
-            reads = [c for c in walk_no_nested(fn) if isinstance(c, ast.Call) and isinstance(c.func, ast.Attribute) and c.func.attr in ("read", "read_text", "readlines", "readline")]
+            direct = [c for c in walk_no_nested(fn) if isinstance(c, ast.Call) and isinstance(c.func, ast.Attribute) and c.func.attr in ("read", "read_text")]
+            if direct and any(isinstance(r, ast.Return) and r.value is not None and any(
+                    any(y is c for y in ast.walk(r.value)) or (isinstance(y, ast.Name) and any(
+                        isinstance(st, ast.Assign) and len(st.targets) == 1 and isinstance(st.targets[0], ast.Name) and st.targets[0].id == y.id
+                        and any(z is c for z in ast.walk(st.value)) for st in walk_no_nested(fn)))
+                    for c in direct for y in ast.walk(r.value)) for r in walk_no_nested(fn)):
+                readers.add(fn.name)
+        for name, fn, ci in fns:
+            reads = [c for c in walk_no_nested(fn) if isinstance(c, ast.Call) and isinstance(c.func, ast.Attribute)
+                     and (c.func.attr in ("read", "read_text", "readlines", "readline") or c.func.attr in readers)] + \
+                    [c for c in walk_no_nested(fn) if isinstance(c, ast.Call) and isinstance(c.func, ast.Name) and c.func.id in readers]
             is_entry = name.endswith("Module.parseString")
             parses = [c for c in walk_no_nested(fn) if isinstance(c, ast.Call) and isinstance(c.func, ast.Attribute) and c.func.attr in ("parseString", "parse_string")]
-            if (reads and (parses or any(isinstance(c, ast.Call) and isinstance(c.func, ast.Attribute) and c.func.attr in ("wrap_file", "parseString")
-                                         for c in walk_no_nested(fn)))) or is_entry:
+            if (reads and (parses or fn.name in readers or any(isinstance(c, ast.Call) and isinstance(c.func, ast.Attribute) and c.func.attr in ("wrap_file", "parseString")
+                                                               for c in walk_no_nested(fn)))) or is_entry:
                 targets.append((mi, name, fn, reads, is_entry))
     for mi, name, fn, reads, is_entry in targets:
         tainted: Set[str] = set()
